@@ -212,7 +212,7 @@ def pmtm(x, NW=None, k=None, NFFT=None, e=None, v=None, method="adapt", show=Fal
         sig2 = np.real(np.vdot(x, x)) / float(N)
         Sk = abs(np.fft.fft(np.multiply(tapers.transpose(), x), NFFT)) ** 2
         Sk = Sk.transpose()
-        S = (Sk[:, 0] + Sk[:, 1]) / 2  # Initial spectrum estimate
+        S = np.mean(Sk[:, 0:2], axis=1)  # Initial spectrum estimate (first two tapers)
         S = S.reshape(NFFT, 1)
         Stemp = np.zeros((NFFT, 1))
         S1 = np.zeros((NFFT, 1))
